@@ -50,18 +50,154 @@ func certParam(fn *ssa.Function) *ssa.Parameter {
 	return out
 }
 
-// certArgsOK: every *x509.Certificate argument of the call is the caller's own
-// certificate parameter (SSA identity).
+// certSource describes where a function takes "the certificate it verifies
+// against" from: its certificate parameter, or a certificate-typed field of
+// one of its parameters (a receiver that carries the verification context).
+type certSource struct {
+	param *ssa.Parameter // the parameter (certificate itself, or the carrier object)
+	field string         // "" or the FieldID of the certificate field in the carrier
+}
+
+func isCertType(t types.Type) bool { return ir.NamedTypeID(t) == "crypto/x509.Certificate" }
+
+// certSourceOf: the unique certificate source of fn (ok=false if none or several).
+func certSourceOf(fn *ssa.Function) (certSource, bool) {
+	var found []certSource
+	add := func(cs certSource) {
+		for _, f := range found {
+			if f == cs {
+				return
+			}
+		}
+		found = append(found, cs)
+	}
+	for _, p := range fn.Params {
+		if isCertType(p.Type()) {
+			add(certSource{param: p})
+		}
+	}
+	for _, f := range withAnon(fn) {
+		instrsOf(f, func(i ssa.Instruction) {
+			var base ssa.Value
+			var t types.Type
+			switch x := i.(type) {
+			case *ssa.FieldAddr:
+				base, t = x.X, x.Type().Underlying().(*types.Pointer).Elem()
+			case *ssa.Field:
+				base, t = x.X, x.Type()
+			default:
+				return
+			}
+			if !isCertType(t) {
+				return
+			}
+			if p := paramRoot(base, fn); p != nil && !isCertType(p.Type()) {
+				add(certSource{param: p, field: ir.FieldID(i.(ssa.Value))})
+			}
+		})
+	}
+	if len(found) != 1 {
+		return certSource{}, false
+	}
+	return found[0], true
+}
+
+// isCallerCert: v denotes the certificate fn verifies against.
+func isCallerCert(fn *ssa.Function, v ssa.Value) bool {
+	cs, ok := certSourceOf(fn)
+	if !ok {
+		return false
+	}
+	v = ir.StripConv(v)
+	if cs.field == "" {
+		return v == ssa.Value(cs.param)
+	}
+	return fieldIDOf(v) == cs.field && paramRoot(loadAddr(v), fn) == cs.param
+}
+
+// paramRoot: the parameter of fn (or of the function enclosing a closure fn)
+// that the storage path v starts at, looking through the local copy go/ssa
+// makes of a by-value parameter whose address is taken.
+func paramRoot(v ssa.Value, fn *ssa.Function) *ssa.Parameter {
+	root := ir.RootOf(v)
+	switch x := root.(type) {
+	case *ssa.Parameter:
+		if x.Parent() == fn || x.Parent() == topFn(fn) {
+			return x
+		}
+	case *ssa.Alloc:
+		var par *ssa.Parameter
+		n := 0
+		for _, r := range *x.Referrers() {
+			if st, ok := r.(*ssa.Store); ok && st.Addr == ssa.Value(x) {
+				n++
+				par, _ = st.Val.(*ssa.Parameter)
+			}
+		}
+		if n == 1 && par != nil && (par.Parent() == fn || par.Parent() == topFn(fn)) {
+			return par
+		}
+	}
+	return nil
+}
+
+// certArgsOK: the certificate the callee verifies against is the certificate
+// the caller verifies against (passed as an argument, or stored into the
+// carrier object the callee receives).
 func certArgsOK(caller *ssa.Function, call ssa.CallInstruction) bool {
-	cp := certParam(caller)
-	for _, a := range ir.CallArgs(call) {
-		if ir.NamedTypeID(a.Type()) == "crypto/x509.Certificate" {
-			if cp == nil || a != ssa.Value(cp) {
+	callee := ir.Callee(call)
+	args := ir.CallArgs(call)
+	if callee == nil || callee.Blocks == nil {
+		for _, a := range args {
+			if isCertType(a.Type()) && !isCallerCert(caller, a) {
 				return false
 			}
 		}
+		return true
 	}
-	return true
+	for _, a := range args {
+		if isCertType(a.Type()) && !isCallerCert(caller, a) {
+			return false
+		}
+	}
+	cs, ok := certSourceOf(callee)
+	if !ok || cs.field == "" {
+		return true // no carrier: the arguments above are all there is
+	}
+	idx := -1
+	for k, p := range callee.Params {
+		if p == cs.param {
+			idx = k
+		}
+	}
+	if idx < 0 || idx >= len(args) {
+		return false
+	}
+	obj := ir.StripConv(args[idx])
+	// the caller's own carrier passed on
+	if ccs, ok := certSourceOf(caller); ok && ccs.field == cs.field && paramRoot(loadAddr(obj), caller) == ccs.param {
+		return true
+	}
+	// a local carrier whose certificate field is assigned once, from the caller's certificate
+	root := ir.RootOf(loadAddr(obj))
+	a, isA := root.(*ssa.Alloc)
+	if !isA {
+		return false
+	}
+	n, good := 0, 0
+	for _, f := range withAnon(caller) {
+		instrsOf(f, func(i ssa.Instruction) {
+			st, isSt := i.(*ssa.Store)
+			if !isSt || ir.FieldID(st.Addr) != cs.field || ir.RootOf(st.Addr) != ssa.Value(a) {
+				return
+			}
+			n++
+			if isCallerCert(caller, st.Val) {
+				good++
+			}
+		})
+	}
+	return n == 1 && good == 1
 }
 
 // acceptingReturns lists the returns of fn that may report acceptance.
@@ -83,11 +219,37 @@ func acceptingReturns(fn *ssa.Function) []*ssa.Return {
 				continue
 			}
 			out = append(out, r)
+		case rs.Len() == 1 && nilable(rs.At(0).Type()):
+			// a lookup: a non-nil result is the accepting outcome
+			if ir.IsNilConst(r.Results[0]) {
+				continue
+			}
+			out = append(out, r)
 		default:
 			out = append(out, r)
 		}
 	}
 	return out
+}
+
+func nilable(t types.Type) bool {
+	switch t.Underlying().(type) {
+	case *types.Pointer, *types.Slice, *types.Map:
+		return true
+	}
+	return false
+}
+
+// errIsNil decodes cond as "an error value is nil" on an edge with the given
+// truth: an explicit nil comparison, or (synthetic edges) the error value itself.
+func errIsNil(cond ssa.Value, truth bool) (ssa.Value, bool) {
+	if v, nilWhenTrue, ok := ir.NilCheck(cond); ok && isErrorType(v.Type()) {
+		return v, truth == nilWhenTrue
+	}
+	if isErrorType(cond.Type()) {
+		return cond, truth
+	}
+	return nil, false
 }
 
 func isBoolType(t types.Type) bool {
@@ -116,13 +278,11 @@ func callOf(v ssa.Value) *ssa.Call {
 // observation: does edge ce observe the accepting result of a repo call?
 // Returns the call if so.
 func (e *acceptEngine) observation(fn *ssa.Function, ce ir.CondEdge) *ssa.Call {
-	if ce.If == nil {
-		return nil
-	}
+	cond, truth := condOf(fn, ce)
 	// bool result observed true
-	if isBoolType(ce.Cond.Type()) && ce.Truth {
-		if call := callOf(ce.Cond); call != nil {
-			if ex, isEx := ce.Cond.(*ssa.Extract); isEx && ex.Index != 0 {
+	if core, neg := ir.Peel(cond); isBoolType(core.Type()) && truth != neg {
+		if call := callOf(core); call != nil {
+			if ex, isEx := core.(*ssa.Extract); isEx && ex.Index != 0 {
 				return nil
 			}
 			if callee := ir.Callee(call); callee != nil && e.c.P.InLib(callee) {
@@ -130,10 +290,16 @@ func (e *acceptEngine) observation(fn *ssa.Function, ce ir.CondEdge) *ssa.Call {
 			}
 		}
 	}
+	// a lookup result observed non-nil
+	if v, nilWhenTrue, ok := ir.NilCheck(cond); ok && nilable(v.Type()) && truth != nilWhenTrue {
+		if call, isCall := v.(*ssa.Call); isCall {
+			if callee := ir.Callee(call); callee != nil && e.c.P.InLib(callee) && callee.Signature.Results().Len() == 1 {
+				return call
+			}
+		}
+	}
 	// error-only result observed nil
-	if v, nilWhenTrue, ok := ir.NilCheck(ce.If.Cond); ok && isErrorType(v.Type()) {
-		succTrue := fn.Blocks[ce.Edge.From].Succs[0].Index == ce.Edge.To
-		isNil := succTrue == nilWhenTrue
+	if v, isNil := errIsNil(cond, truth); v != nil {
 		if !isNil {
 			return nil
 		}
@@ -152,6 +318,52 @@ func (e *acceptEngine) observation(fn *ssa.Function, ce ir.CondEdge) *ssa.Call {
 	return nil
 }
 
+// condOf: the branch condition of a conditional edge (or the bare condition
+// value of a synthetic edge) and the truth value it has on that edge.
+func condOf(fn *ssa.Function, ce ir.CondEdge) (ssa.Value, bool) {
+	if ce.If != nil {
+		return ce.If.Cond, fn.Blocks[ce.Edge.From].Succs[0].Index == ce.Edge.To
+	}
+	return ce.Cond, ce.Truth
+}
+
+// valueEstablishes: the boolean value v being true implies fact f (a direct
+// test, the accepting result of an establishing callee, or a phi all of whose
+// possibly-true incoming values do).
+func (e *acceptEngine) valueEstablishes(fn *ssa.Function, v ssa.Value, f *fact, depth int) bool {
+	if depth > 4 {
+		return false
+	}
+	core, neg := ir.Peel(v)
+	if k, ok := core.(*ssa.Const); ok {
+		// a constant false (after negation) can never be the accepting value
+		return k.Value != nil && k.Value.Kind() == constant.Bool && constant.BoolVal(k.Value) == neg
+	}
+	if f.direct(e.c, fn, ir.CondEdge{Cond: core, Truth: !neg}) {
+		return true
+	}
+	if call := e.observation(fn, ir.CondEdge{Cond: core, Truth: !neg}); call != nil && certArgsOK(fn, call) && e.establishes(ir.Callee(call), f) {
+		return true
+	}
+	if ph, ok := core.(*ssa.Phi); ok && !neg {
+		any := false
+		for _, ev := range ph.Edges {
+			if ev == ssa.Value(ph) {
+				continue
+			}
+			if k, isK := ev.(*ssa.Const); isK && k.Value != nil && k.Value.Kind() == constant.Bool && !constant.BoolVal(k.Value) {
+				continue
+			}
+			if !e.valueEstablishes(fn, ev, f, depth+1) {
+				return false
+			}
+			any = true
+		}
+		return any
+	}
+	return false
+}
+
 func (e *acceptEngine) evidenceEdges(fn *ssa.Function, f *fact) []ir.Edge {
 	key := name(fn) + "|" + f.id
 	if ev, ok := e.evidence[key]; ok {
@@ -166,6 +378,15 @@ func (e *acceptEngine) evidenceEdges(fn *ssa.Function, f *fact) []ir.Edge {
 		if call := e.observation(fn, ce); call != nil && certArgsOK(fn, call) {
 			if e.establishes(ir.Callee(call), f) {
 				out = append(out, ce.Edge)
+				continue
+			}
+		}
+		// a flag: `ok` is a phi of false and accepting results
+		if cond, truth := condOf(fn, ce); ce.If != nil {
+			if core, neg := ir.Peel(cond); truth != neg {
+				if _, isPhi := core.(*ssa.Phi); isPhi && isBoolType(core.Type()) && e.valueEstablishes(fn, core, f, 0) {
+					out = append(out, ce.Edge)
+				}
 			}
 		}
 	}
@@ -186,6 +407,22 @@ func (e *acceptEngine) holdsAt(fn *ssa.Function, r *ssa.Return, f *fact) (bool, 
 			}
 		}
 	}
+	// an error result that is itself the outcome of the establishing step
+	// (`return cert.CheckSignature(...)`, `return check.run(...)`): nil means accepted
+	errTail := false
+	if n := len(r.Results); n > 0 && isErrorType(r.Results[n-1].Type()) && !(n > 1 && isBoolType(r.Results[0].Type())) {
+		if _, isConst := r.Results[n-1].(*ssa.Const); !isConst {
+			ev := r.Results[n-1]
+			if f.direct(e.c, fn, ir.CondEdge{Cond: ev, Truth: true}) {
+				errTail = true
+			} else if call := e.observation(fn, ir.CondEdge{Cond: ev, Truth: true}); call != nil && certArgsOK(fn, call) && e.establishes(ir.Callee(call), f) {
+				errTail = true
+			}
+		}
+	}
+	if errTail {
+		return true, ""
+	}
 	cut := map[ir.Edge]bool{}
 	for _, ed := range e.evidenceEdges(fn, f) {
 		cut[ed] = true
@@ -199,7 +436,7 @@ func (e *acceptEngine) holdsAt(fn *ssa.Function, r *ssa.Return, f *fact) (bool, 
 			if st != fn.Blocks[0] && !reachableBlock(fn, st) {
 				continue
 			}
-			seen, prev := ir.Reach(fn, st, cut)
+			seen, prev := ir.ReachF(fn, st, cut)
 			if seen[target.Index] {
 				return true, ir.PathTo(fn, prev, st.Index, target.Index, e.c.Pos)
 			}
@@ -231,14 +468,8 @@ func (e *acceptEngine) holdsAt(fn *ssa.Function, r *ssa.Return, f *fact) (bool, 
 					continue
 				}
 				if _, isConst := ev.val.(*ssa.Const); !isConst {
-					core, neg := ir.Peel(ev.val)
-					if f.direct(e.c, fn, ir.CondEdge{Cond: core, Truth: !neg}) {
+					if e.valueEstablishes(fn, ev.val, f, 0) {
 						continue
-					}
-					if call := callOf(core); call != nil && !neg {
-						if callee := ir.Callee(call); callee != nil && e.c.P.InLib(callee) && certArgsOK(fn, call) && e.establishes(callee, f) {
-							continue
-						}
 					}
 				}
 				if hit, w := reachable(ev.pred); hit {
@@ -318,9 +549,33 @@ func equalityOperands(ce ir.CondEdge) (a, b ssa.Value, ok bool) {
 		}
 	}
 	if cmp, isCmp := ce.Cond.(*ssa.BinOp); isCmp && (cmp.Op == token.EQL || cmp.Op == token.NEQ) {
-		if call, isCall := ir.StripConv(cmp.X).(*ssa.Call); isCall && ir.CallID(call) == "crypto/subtle.ConstantTimeCompare" {
-			if k, isK := ir.ConstInt(cmp.Y); isK && k == 1 && ce.Truth == (cmp.Op == token.EQL) {
-				return call.Call.Args[0], call.Call.Args[1], true
+		if call, isCall := ir.StripConv(cmp.X).(*ssa.Call); isCall {
+			switch ir.CallID(call) {
+			case "crypto/subtle.ConstantTimeCompare":
+				if k, isK := ir.ConstInt(cmp.Y); isK && k == 1 && ce.Truth == (cmp.Op == token.EQL) {
+					return call.Call.Args[0], call.Call.Args[1], true
+				}
+				// != 0 is not equality (the result is 0 or 1, but only == 1 / != 1 are the idiom)
+				return nil, nil, false
+			case "bytes.Compare", "strings.Compare":
+				if k, isK := ir.ConstInt(cmp.Y); isK && k == 0 && ce.Truth == (cmp.Op == token.EQL) {
+					return call.Call.Args[0], call.Call.Args[1], true
+				}
+				return nil, nil, false
+			}
+		}
+		// string(a) == string(b), [N]byte == [N]byte
+		if ce.Truth == (cmp.Op == token.EQL) {
+			tx := cmp.X.Type().Underlying()
+			if b, isB := tx.(*types.Basic); isB && b.Kind() == types.String {
+				cx, okx := cmp.X.(*ssa.Convert)
+				cy, oky := cmp.Y.(*ssa.Convert)
+				if okx && oky && isByteSlice(cx.X.Type()) && isByteSlice(cy.X.Type()) {
+					return cx.X, cy.X, true
+				}
+			}
+			if arr, isArr := tx.(*types.Array); isArr && binarySize(arr.Elem()) == 1 {
+				return cmp.X, cmp.Y, true
 			}
 		}
 	}
@@ -383,39 +638,62 @@ var factSerial = &fact{id: "serial", what: "the signer's serial number equals th
 
 var factSignature = &fact{id: "signature", what: "an RSA-SHA256 signature by the verifying certificate's key over the re-encoded signed attributes is valid",
 	direct: func(c *Ctx, fn *ssa.Function, ce ir.CondEdge) bool {
-		if ce.If == nil {
-			return false
+		cond, truth := condOf(fn, ce)
+		v, isNil := errIsNil(cond, truth)
+		if v == nil || !isNil {
+			return false // not "error is nil" on this edge
 		}
-		v, nilWhenTrue, ok := ir.NilCheck(ce.If.Cond)
-		if !ok || !isErrorType(v.Type()) {
-			return false
+		attrsOK := func(signed ssa.Value) bool {
+			ss := c.sliceOf(signed)
+			return len(ir.CallsIn(ss, M+"/pkcs7.Attributes.Marshal")) > 0 && ir.HasField(ss, M+"/pkcs7.signerinfo.AuthenticatedAttributes")
 		}
-		succTrue := fn.Blocks[ce.Edge.From].Succs[0].Index == ce.Edge.To
-		if succTrue != nilWhenTrue {
-			return false // error non-nil on this edge
+		sigOK := func(sig ssa.Value) bool {
+			return ir.HasField(c.sliceOf(sig), M+"/pkcs7.signerinfo.EncryptedDigest")
 		}
 		for _, call := range errorOrigins(v, map[ssa.Value]bool{}) {
-			if ir.CallID(call) != "crypto/x509.Certificate.CheckSignature" {
-				continue
+			switch ir.CallID(call) {
+			case "crypto/x509.Certificate.CheckSignature":
+				args := call.Call.Args // recv, algo, signed, signature
+				if !isCallerCert(fn, args[0]) {
+					continue
+				}
+				algo, isK := ir.ConstInt(args[1])
+				want, _ := c.constInt("crypto/x509", "SHA256WithRSA")
+				if !isK || algo != want {
+					continue
+				}
+				if attrsOK(args[2]) && sigOK(args[3]) {
+					return true
+				}
+			case "crypto/rsa.VerifyPKCS1v15":
+				args := call.Call.Args // pub, hash, hashed, sig
+				// the key is the caller certificate's public key
+				ps := c.sliceOf(args[0])
+				if !ir.HasField(ps, "crypto/x509.Certificate.PublicKey") || ir.HasField(ps, M+"/pkcs7.PKCS7.Certs") {
+					continue
+				}
+				keyFromCaller := false
+				for pv := range ps {
+					if fa, isFA := pv.(*ssa.FieldAddr); isFA && ir.FieldID(fa) == "crypto/x509.Certificate.PublicKey" && isCallerCert(fa.Parent(), fa.X) && (fa.Parent() == fn || fa.Parent().Parent() == fn) {
+						keyFromCaller = true
+					}
+				}
+				if !keyFromCaller {
+					continue
+				}
+				h, isK := ir.ConstInt(args[1])
+				want, _ := c.constInt("crypto", "SHA256")
+				if !isK || h != want {
+					continue
+				}
+				hs := c.sliceOf(args[2])
+				if !sha256Only(c, hs) || len(ir.CallsIn(hs, M+"/pkcs7.Attributes.Marshal")) == 0 || !ir.HasField(hs, M+"/pkcs7.signerinfo.AuthenticatedAttributes") {
+					continue
+				}
+				if sigOK(args[3]) {
+					return true
+				}
 			}
-			args := call.Call.Args // recv, algo, signed, signature
-			if cp := certParam(fn); cp == nil || args[0] != ssa.Value(cp) {
-				continue
-			}
-			algo, isK := ir.ConstInt(args[1])
-			want, _ := c.constInt("crypto/x509", "SHA256WithRSA")
-			if !isK || algo != want {
-				continue
-			}
-			ss := c.sliceOf(args[2])
-			marsh := ir.CallsIn(ss, M+"/pkcs7.Attributes.Marshal")
-			if len(marsh) == 0 || !ir.HasField(ss, M+"/pkcs7.signerinfo.AuthenticatedAttributes") {
-				continue
-			}
-			if !ir.HasField(c.sliceOf(args[3]), M+"/pkcs7.signerinfo.EncryptedDigest") {
-				continue
-			}
-			return true
 		}
 		return false
 	}}
@@ -511,5 +789,23 @@ var factDigestAlg = &fact{id: "digest-algorithm", what: "the digest algorithm na
 		alg := func(s map[ssa.Value]bool) bool {
 			return ir.HasField(s, M+"/authenticode.Authenticode.Algid") || ir.HasField(s, "crypto/x509/pkix.AlgorithmIdentifier.Algorithm")
 		}
-		return oid(sa) && alg(sb) || oid(sb) && alg(sa)
+		if oid(sa) && alg(sb) || oid(sb) && alg(sa) {
+			return true
+		}
+		// the accepted identifiers come from a local table: every row must be SHA-256
+		dv := c.deepViewOf(topFn(fn), 1)
+		fr := dv.frameOfFn(fn)
+		if fr == nil {
+			return false
+		}
+		allSHA := func(v ssa.Value) bool {
+			alts := dv.alternatives(v, fr)
+			for _, a := range alts {
+				if !isGlobalLoad(a.v, M+"/pkcs7.OIDDigestAlgorithmSHA256") {
+					return false
+				}
+			}
+			return len(alts) > 0
+		}
+		return allSHA(call.Call.Args[0]) && alg(sb) || allSHA(call.Call.Args[1]) && alg(sa)
 	}}
